@@ -180,6 +180,9 @@ UNITS += [
     Unit("barrier.base_arrive", "barrier_base.c", defines=["U_ARRIVE"] + KF, enforce="base_arrive",
          lifts={"ctor": BB_CTOR, "arrive": bb_arrive({1: LOOP_ROUNDS, 2: LOOP_SCAN, "count": 2})},
          extra_flags=["--unsigned-overflow-check"], solver=["--sat-solver", "cadical"],   # MiniSat needs ~65 s, CaDiCaL ~12 s
+         # no replay: the bounded re-run without loop contracts does not terminate for 2^63 participants (costs 2 min, finds nothing);
+         # the same defect (expected == PTRDIFF_MAX) is reproduced natively by barrier.base_ctor
+         no_replay=True,
          funcs=[BCPP + ": detail::barrier_algorithm_base::arrive"], min_obligations=40),
 ] + [
     Unit("barrier.base_arrive.order.e%d" % e, "barrier_base.c", defines=["U_BOUNDED", "VX_MAX_EXPECTED=6", "VX_EXPECTED=%d" % e],
@@ -243,7 +246,61 @@ UNITS += [
 ]
 
 META = {
-    "trusted_base": [],
-    "assumptions": [],
-    "not_decided": [],
+    "trusted_base": [
+        "specs/C09/latch.h latch_at_acquire/interfere_counter (VX_ASSUME): rely of pika::latch -- while the lock is free (and, for the "
+        "atomic counter_, at any time) other threads may lower counter_ (never below 0 nor below the share reserved for this call's own "
+        "pending decrement), may set but never clear notified_, and leave the monitor invariant CNT/OPEN/WAKE/DRAIN intact; every clause "
+        "is asserted as a guarantee at every release point / atomic step of the four latch units",
+        "specs/C09/latch.h cv_wait (VX_ASSUME g_inflight >= 1), cv_notify_one: contract of detail::condition_variable as seen by a client "
+        "holding the lock: wait enqueues under the lock, releases it only inside the suspension and returns only after a notifier dequeued "
+        "the caller (no spurious wake-up: latch::wait uses `if`, not `while`); notify_one(std::move(l)) dequeues the front waiter if any, "
+        "releases the lock and returns 'still non-empty' (subject of C07)",
+        "specs/C09/event.h interfere_event/ev_at_acquire (VX_ASSUME): rely of event -- event_ becomes true only as the first step of a "
+        "set() (whose notify_all is then owed), reset() may clear it at any time unless the harness chose the no-reset variant; "
+        "cv_wait (spurious wake-ups allowed, nothing assumed), cv_notify_all (dequeues every waiter, releases the lock)",
+        "specs/C09/once.h interfere_status (VX_ASSUME RELY_ST): other threads move status_ only along 0->running->{complete,0}, complete "
+        "final, and not at all while this call is the runner; status words lifted from once.hpp (not copied); event_.{reset,set,wait} "
+        "are call-trace stubs (the event's own contract is proved in event.*); PIKA_INVOKE = opaque callable that returns or throws; "
+        "try/catch lowered by vx.lift.TryCatch with `throw;` = propagate",
+        "specs/C09/barrier_base.h ticket_cas: the heap array of tickets is not materialised in the unbounded unit; every ticket read "
+        "returns an arbitrary byte (weakest rely); hash_thread_id (VX_ASSUME A-HASH), hash_std_thread_id = any value; state_alloc records "
+        "the element count of `new state_t[count]`",
+        "specs/C09/barrier.h base_arrive: barrier_algorithm_base::arrive used by contract 'exactly the last outstanding arrival of a phase "
+        "returns true' (supported only by the bounded units barrier.base_arrive.order.*); interfere_adj (VX_ASSUME): other threads only "
+        "decrement expected_adjustment, and do not touch it (nor phase) while this call completes the phase; yield_while_poll / "
+        "yield_while_timeout_poll (VX_ASSUME): pika::util::yield_while returns only after its predicate evaluated false, "
+        "yield_while_timeout returns true only then (execution_base/this_thread.hpp:69-176, not lifted)",
+        "vx/prelude/monitor.h: std::unique_lock / spinlock modelled as a ghost 'held' bit (A-LOCK: mutual exclusion trusted)",
+        "ghost counters bounded by 10^9 (waiters, in-flight wake-ups, |expected_adjustment|, barrier expected in barrier.arrive) so that "
+        "ghost arithmetic cannot overflow",
+        "CaDiCaL (cbmc --sat-solver cadical) is the back end of barrier.base_arrive and of the bounded barrier units",
+    ],
+    "assumptions": [
+        "latch usage protocol (std::latch precondition, PIKA_ASSERTs in count_down/arrive_and_wait): the sum of all updates never exceeds "
+        "the initial count -- modelled as a per-call reserved share of counter_ that other threads do not consume",
+        "A-HASH (observation, not a violation): barrier_algorithm_base::arrive reduces only the std::thread::id hash modulo (expected+1)/2; "
+        "the other branch of the ternary is taken exactly when the pika thread id is INVALID and is in range only because libstdc++'s "
+        "std::hash<size_t>(0) == 0 (barrier.cpp:44-47).  Parenthesising the conditional, `(c ? a : b) % n`, proves without A-HASH; merely "
+        "inverting the condition would index out of bounds",
+        "A-COMPLETION-EXCLUSIVE: while the thread for which base.arrive returned true runs the completion step, no other thread calls "
+        "arrive/arrive_and_drop on the barrier (every expected arrival of the phase has happened; [thread.barrier.class])",
+        "barrier<>::arrive: base.arrive returns true exactly for the last outstanding arrival of the phase (bounded evidence only), "
+        "update <= outstanding arrivals (std::barrier precondition)",
+        "bounded units barrier.base_arrive.order.*: serialized arrivals only; the induction over arrivals / phases that extends the "
+        "one-step and one-phase harnesses to whole executions is a paper argument",
+        "known finding candidate: `(expected + 1) >> 1` overflows (signed, UB) for expected == PTRDIFF_MAX == barrier::max() in the "
+        "constructor (barrier.cpp:31) and in arrive (barrier.cpp:47); define KF_EXPECTED_BELOW_MAX excludes exactly that input class",
+        "once: the callable does not call call_once on the same flag recursively",
+    ],
+    "not_decided": [
+        "concurrent arrivals in the tournament tree (protocol-level inductive invariant over the ticket words) -- only the per-access "
+        "obligations (bounds, step shapes, geometry, mod-256 arithmetic) are proved for all interleavings",
+        "liveness: that a blocked latch/event waiter or a barrier::wait poller is eventually resumed (C02); termination of the latch drain "
+        "loop and of the tree scan",
+        "barrier<>::arrive_and_wait (one-line composition wait(arrive())), barrier constructor of the class template, "
+        "completion functions that throw or call back into the barrier",
+        "event_.reset() placement in call_once (a misplaced reset can only strand waiters = liveness)",
+        "memory-order adequacy (relaxed counter_ decrement vs. notified_, acq_rel ticket CAS)",
+        "pika::util::yield_while / yield_while_timeout themselves; detail::condition_variable (C07)",
+    ],
 }
